@@ -5,7 +5,7 @@ import "time"
 func init() { checks["C12"] = checkC12 }
 
 func checkC12(c *Check) {
-	c.Rule = "TLC (RulesGen.tla, alphabet AlphaKeys) enumerates every sequence of map keys / record-type keys in every event form (pint/int/bigint/nint, whole/array-API/chunked strings in 1 or 2 chunks, rid, uid, bool forms, date, string spelling a date) with null values, up to the length bound; the model rejects exactly at the first key equal by (type, value) to an earlier one; each behaviour is replayed into rules.NewRules. non-trivial = every behaviour (all contain a map or record type); distinct = distinct index sequences"
+	c.Rule = "TLC (RulesGen.tla, alphabet AlphaKeys) enumerates every sequence of map keys / record-type keys in every event form (pint/int/bigint/nint, whole/array-API/chunked strings in 1 or 2 chunks, rid, uid, bool forms, date, string spelling a date; integers of 3, 4, 5 and 6 machine words) with null values, up to the length bound; the model rejects exactly at the first key equal by (type, value) to an earlier one; each behaviour is replayed into rules.NewRules. non-trivial = every behaviour (all contain a map or record type); distinct = distinct index sequences"
 	c.Assumptions = []string{"abs/concretiser of harness/abs.go", "TLC", "bounded number of keys per container (3-4)"}
 	reasons := []string{"dupkey"}
 	runRulesMC(c, "AlphaKeysScalar", map[string]int{"quick": 5, "thorough": 7}[c.Tier], defaultLim, "FilterKeys", "keys/scalar")
@@ -17,6 +17,8 @@ func checkC12(c *Check) {
 	to := 40 * time.Minute
 	runRulesGen(c, genCfg{Alphabet: "AlphaKeysScalar", MaxLen: ns, Lim: defaultLim, Reasons: reasons, Prefix: "<<EvBD, EvVer(0), EvMap>>", Filter: "FilterKeys", Label: "keys/map/scalar", Timeout: to, Workers: 8})
 	runRulesGen(c, genCfg{Alphabet: "AlphaKeysScalar", MaxLen: nr, Lim: defaultLim, Reasons: reasons, Prefix: "<<EvBD, EvVer(0), EvRT(\"a\")>>", Filter: "FilterKeys", Label: "keys/recordtype/scalar", Timeout: to, Workers: 8})
+	runRulesGen(c, genCfg{Alphabet: "AlphaKeysWide", MaxLen: ns + 1, Lim: defaultLim, Reasons: reasons, Prefix: "<<EvBD, EvVer(0), EvMap>>", Filter: "FilterKeys", Label: "keys/map/wide-integers", Timeout: to, Workers: 8})
+	runRulesGen(c, genCfg{Alphabet: "AlphaKeysWide", MaxLen: nr + 1, Lim: defaultLim, Reasons: reasons, Prefix: "<<EvBD, EvVer(0), EvRT(\"a\")>>", Filter: "FilterKeys", Label: "keys/recordtype/wide-integers", Timeout: to, Workers: 8})
 	runRulesGen(c, genCfg{Alphabet: "AlphaKeysStr", MaxLen: nt, Lim: defaultLim, Reasons: reasons, Prefix: "<<EvBD, EvVer(0), EvMap>>", Filter: "FilterKeys", Label: "keys/map/stringlike", Timeout: to, Workers: 8})
 	runRulesGen(c, genCfg{Alphabet: "AlphaKeysStr", MaxLen: nt - 2, Lim: defaultLim, Reasons: reasons, Prefix: "<<EvBD, EvVer(0), EvRT(\"a\")>>", Filter: "FilterKeys", Label: "keys/recordtype/stringlike", Timeout: to, Workers: 8})
 }
